@@ -175,6 +175,24 @@ def tv_once(ctx, spec, cfg, trace, prop, name, timeout=1800, extra_env=None):
     return dict(accepted=(mark == total), mark=mark, total=total, generated=gen, distinct=dist)
 
 
+def tv_cases(ctx, spec, trace, name, timeout=1800):
+    """validate a file of independent cases (one per line); returns (number of lines, [bad 1-based line numbers])"""
+    d = tlc_dir(ctx, name)
+    env = dict(os.environ, TRACE=trace, JAVA_TOOL_OPTIONS='-Dtlc2.tool.queue.IStateQueue=StateDeque')
+    r = sh(['timeout', str(timeout), 'tlc', '-workers', '1', '-metadir', f'{d}/md', '-config', f'{spec}.cfg', f'{spec}.tla'], cwd=d, env=env)
+    open(f'{d}/tlc.out', 'w').write(r.stdout)
+    shutil.rmtree(f'{d}/md', ignore_errors=True)
+    m = re.search(r'<<"TVMARK", (\d+), (\d+)>>', r.stdout)
+    if not m or int(m.group(1)) != int(m.group(2)):
+        raise Infra(f'case validation {spec} on {trace} did not run to the end (rc={r.returncode}):\n' + '\n'.join(r.stdout.splitlines()[-30:]))
+    bad = [int(x) for x in re.findall(r'<<"TVBAD", (\d+)>>', r.stdout)]
+    ms = re.search(r'(\d+) states generated, (\d+) distinct states found', r.stdout)
+    if ms:
+        ctx.states += int(ms.group(2))
+        ctx.transitions += int(ms.group(1))
+    return int(m.group(2)), bad
+
+
 def exec_of_line(stats, line):
     """ExecInfo (from stats.exec_index) of the execution containing the 1-based trace line"""
     best = None
